@@ -4,7 +4,7 @@ import EaselModel.Vec.Real
 import EaselModel.Vec.XReal
 /-! # C20 — vector and SIMD numeric kernels compute their definition for every input
 
-Property theorems only (proofs are glue on the lemmas of `Simd/Lemmas.lean`, `Simd/LogExpLemmas.lean`, `Vec/Real.lean`).
+Property theorems only (proofs are glue on the lemmas of `Simd/Lemmas.lean`, `Simd/LogExpLemmas.lean`, `Vec/Real.lean`, `Vec/XReal.lean`).
 
 * Part A (`Gen.*` = the helper inlines of esl_sse.h / esl_avx.h / esl_avx512.h, REGENERATED from the working tree on every
   run by translate/simd2lean.py; intrinsics = the reviewed table `Simd/Intrinsics.lean`): every helper equals the scalar
@@ -15,7 +15,7 @@ Property theorems only (proofs are glue on the lemmas of `Simd/Lemmas.lean`, `Si
   statement that holds is a fixed shuffle tree; it is checked bit-for-bit by the differential run and bounded by a monitor).
 * Part B (`Gen.esl_sse_logf_lane`, `Gen.esl_sse_expf_lane` regenerated from esl_sse.c): documented special values for all
   2^32 bit patterns, for ANY float arithmetic `L`.  NOT a theorem (measured, see evidence): "within a few ulp of libm
-  elsewhere" — `logf_expf_accuracy_partial` below records the missing part.
+  elsewhere" — the comment after `expf_nan` below keeps the unproved part of the statement visible.
 * Part C (hand model `Vec/Model.lean`, tied by the differential run): the routines over ℝ / any linear order. -/
 namespace EaselModel.Props.C20
 open EaselModel.Simd EaselModel.Simd.Gen EaselModel.Simd.Spec EaselModel.Vec
@@ -30,6 +30,12 @@ theorem avx_hmax_epi16 (a : Vector (BitVec 16) 16) : (esl_avx_hmax_epi16 a).toIn
 theorem avx512_hmax_epu8 (a : Vector (BitVec 8) 64) : (esl_avx512_hmax_epu8 a).toNat = hmaxU a := Simd.avx512_hmax_epu8 a
 theorem avx512_hmax_epi8 (a : Vector (BitVec 8) 64) : (esl_avx512_hmax_epi8 a).toInt = hmaxS a := Simd.avx512_hmax_epi8 a
 theorem avx512_hmax_epi16 (a : Vector (BitVec 16) 32) : (esl_avx512_hmax_epi16 a).toInt = hmaxS a := Simd.avx512_hmax_epi16 a
+
+/-- what `hmaxU` / `hmaxS` (the scalar loops) are: an upper bound of every lane that is attained by a lane -/
+theorem hmaxU_spec {w n : Nat} (a : Vector (BitVec w) n) :
+    (∀ i : Fin n, a[i].toNat ≤ hmaxU a) ∧ (0 < n → ∃ i : Fin n, hmaxU a = a[i].toNat) := Simd.hmaxU_spec a
+theorem hmaxS_spec {w n : Nat} (a : Vector (BitVec w) n) :
+    (∀ i : Fin n, a[i].toInt ≤ hmaxS a) ∧ (0 < n → ∃ i : Fin n, hmaxS a = a[i].toInt) := Simd.hmaxS_spec a
 
 example : hmaxU (Vector.ofFn (n := 16) fun i => BitVec.ofNat 8 (if i.val = 13 then 255 else i.val)) = 255 := by decide
 example : hmaxS (Vector.ofFn (n := 8) fun i => BitVec.ofNat 16 (if i.val = 5 then 0x8001 else 0x8000)) = -32767 := by decide
@@ -167,21 +173,32 @@ theorem cdf_spec (v : List ℝ) (h : v ≠ []) : cdf v = some ((List.range v.len
 theorem validate_spec (v : List ℝ) (tol : ℝ) (h : v ≠ []) :
     validate v tol = true ↔ (∀ x ∈ v, 0 ≤ x ∧ x ≤ 1) ∧ |v.sum - 1| ≤ tol := Vec.validate_spec v tol h
 
-/-! ## C. log space (extended reals `XR`: -inf, reals, +inf, NaN; the same `logSum` that runs against the C code) -/
+/-! ## C. log space (extended reals `XR`: -inf, reals, +inf, NaN; the same `logSum` that runs against the C code; the window
+    constant of the routine is a parameter: 500 for the double routines, 50 for the float ones) -/
+/-- window of `esl_vec_DLogSum` / `esl_vec_FLogSum` -/
+def winD : Window := ⟨500, by norm_num⟩
+def winF : Window := ⟨50, by norm_num⟩
+
 /-- every entry `-inf` ↦ `-inf`, as the code does (`log 0 + -inf`) -/
-theorem logSum_all_ninf (v : List XR) (hne : v ≠ []) (hv : ∀ x ∈ v, x = XR.ninf) : logSum v = some XR.ninf := Vec.logSum_all_ninf v hne hv
-/-- `LogSum = log Σ exp` over the finite entries, within `n·e^{-500}` (the terms below `max - 500` that the code drops), for
+theorem logSum_all_ninf [Window] (v : List XR) (hne : v ≠ []) (hv : ∀ x ∈ v, x = XR.ninf) : logSum v = some XR.ninf :=
+  Vec.logSum_all_ninf v hne hv
+/-- `DLogSum = log Σ exp` over the finite entries, within `n·e^{-500}` (the terms below `max - 500` that the code drops), for
     entries that are `-inf` or any reals — in particular entries hundreds of log units apart -/
 theorem logSum_spec (v : List XR) (hv : ∀ x ∈ v, x.isLogP) (hfin : finites v ≠ []) :
-    ∃ r : ℝ, logSum v = some (XR.fin r) ∧ |r - Real.log ((finites v).map Real.exp).sum| ≤ v.length * Real.exp (-500) := Vec.logSum_spec v hv hfin
-theorem logSum_of_max_pinf (v : List XR) (h : vmax v = some XR.pinf) : logSum v = some XR.pinf := Vec.logSum_of_max_pinf v h
+    ∃ r : ℝ, @logSum XR (@instVInfXR winD) v = some (XR.fin r) ∧
+      |r - Real.log ((finites v).map Real.exp).sum| ≤ v.length * Real.exp (-500) := @Vec.logSum_spec winD v hv hfin
+/-- the float routine (window 50): within `n·e^{-50}` -/
+theorem logSum_spec_F (v : List XR) (hv : ∀ x ∈ v, x.isLogP) (hfin : finites v ≠ []) :
+    ∃ r : ℝ, @logSum XR (@instVInfXR winF) v = some (XR.fin r) ∧
+      |r - Real.log ((finites v).map Real.exp).sum| ≤ v.length * Real.exp (-50) := @Vec.logSum_spec winF v hv hfin
+theorem logSum_of_max_pinf [Window] (v : List XR) (h : vmax v = some XR.pinf) : logSum v = some XR.pinf := Vec.logSum_of_max_pinf v h
 example : (∀ x ∈ [XR.fin (-1000), XR.ninf, XR.fin (-1600)], x.isLogP) ∧ finites [XR.fin (-1000), XR.ninf, XR.fin (-1600)] ≠ [] := by
   constructor
   · intro x hx; simp at hx; rcases hx with h | h | h <;> subst h <;> trivial
   · simp [finites]
 
 /-- `LogNorm` = exact softmax over the reals (`-inf ↦ 0`), summing to 1 -/
-theorem logNorm_spec (v : List XR) (hv : ∀ x ∈ v, x.isLogP) (hfin : finites v ≠ []) :
+theorem logNorm_spec [Window] (v : List XR) (hv : ∀ x ∈ v, x.isLogP) (hfin : finites v ≠ []) :
     logNorm v = some ((softmax v).map XR.fin) ∧ (softmax v).sum = 1 := Vec.logNorm_spec v hv hfin
 /-- `RelEntropy`: `+inf` (early return) iff some `p_i > 0` has `q_i = 0`, else `Σ_{p_i>0} p_i log2 (p_i/q_i)` -/
 theorem relEntropyGo_spec (p q : List ℝ) (kl : ℝ) :
@@ -190,8 +207,11 @@ theorem relEntropyGo_spec (p q : List ℝ) (kl : ℝ) :
 
 /-- base-2 analogue of `logSum_spec` -/
 theorem log2Sum_spec (v : List XR) (hv : ∀ x ∈ v, x.isLogP) (hfin : finites v ≠ []) :
-    ∃ r : ℝ, log2Sum v = some (XR.fin r) ∧
-      |r - Real.logb 2 ((finites v).map fun a => (2 : ℝ) ^ a).sum| ≤ v.length * (2 : ℝ) ^ (-500 : ℝ) / Real.log 2 := Vec.log2Sum_spec v hv hfin
+    ∃ r : ℝ, @log2Sum XR (@instVInfXR winD) v = some (XR.fin r) ∧
+      |r - Real.logb 2 ((finites v).map fun a => (2 : ℝ) ^ a).sum| ≤ v.length * (2 : ℝ) ^ (-500 : ℝ) / Real.log 2 := @Vec.log2Sum_spec winD v hv hfin
+theorem log2Sum_spec_F (v : List XR) (hv : ∀ x ∈ v, x.isLogP) (hfin : finites v ≠ []) :
+    ∃ r : ℝ, @log2Sum XR (@instVInfXR winF) v = some (XR.fin r) ∧
+      |r - Real.logb 2 ((finites v).map fun a => (2 : ℝ) ^ a).sum| ≤ v.length * (2 : ℝ) ^ (-50 : ℝ) / Real.log 2 := @Vec.log2Sum_spec winF v hv hfin
 theorem isum_eq (v : List Int) : isum v = v.sum := Vec.isum_eq v
 theorem idot_eq (v w : List Int) : idot v w = (List.zipWith (· * ·) v w).sum := Vec.idot_eq v w
 
